@@ -660,7 +660,7 @@ WaitingIntoHold(L, idx) ==
            L1 == RemoveWaiting(L, idx)
            L2 == IF <<w.x, w.y>> = L1.lpc THEN [L1 EXCEPT !.lpt = 0] ELSE L1
            L3 == [L2 EXCEPT !.os.pticks = L2.os.pdelay]
-       IN IF WDelayOverflows(w) THEN [L |-> Panic(L, "add-overflow:waiting.delay+ticks"), ce |-> NoCe]
+       IN IF WDelayOverflows(w) THEN [L |-> Panic(L, "add-overflow:waiting.delay+ticks@into_hold"), ce |-> NoCe]
           ELSE DoAction(L3, w.hold, <<>>, w.x, w.y, WDelay(w), FALSE, w.stack)
 
 RECURSIVE DoOnCoords(_, _, _, _, _)
@@ -679,7 +679,7 @@ WaitingIntoTap(L, pq, somepq, idx) ==
   LET ws == GetWaiting(L, idx) IN
   IF ws = <<>> THEN [L |-> L, ce |-> NoCe]
   ELSE LET w == ws[1]
-           L1 == IF WDelayOverflows(w) THEN Panic(L, "add-overflow:waiting.delay+ticks") ELSE RemoveWaiting(L, idx)
+           L1 == IF WDelayOverflows(w) THEN Panic(L, "add-overflow:waiting.delay+ticks@into_tap") ELSE RemoveWaiting(L, idx)
            delay == WDelay(w)
            r == DoAction(L1, w.tap, <<>>, w.x, w.y, delay, FALSE, w.stack)
            tapRec == ActRec(w.tap)
@@ -696,7 +696,7 @@ WaitingIntoTimeout(L, idx) ==
   ELSE LET w == ws[1]
            L1 == RemoveWaiting(L, idx)
            L2 == IF <<w.x, w.y>> = L1.lpc THEN [L1 EXCEPT !.lpt = 0] ELSE L1
-       IN IF WDelayOverflows(w) THEN [L |-> Panic(L, "add-overflow:waiting.delay+ticks"), ce |-> NoCe]
+       IN IF WDelayOverflows(w) THEN [L |-> Panic(L, "add-overflow:waiting.delay+ticks@into_timeout"), ce |-> NoCe]
           ELSE DoAction(L2, w.toa, <<>>, w.x, w.y, WDelay(w), FALSE, w.stack)
 
 \* ----- Layout::event (1541-1555), without chords v2 ------------------------------------
@@ -735,7 +735,10 @@ ProcessOneSeq(L, sq) ==      \* returns [L, sq]
                                        !.states = FilterSeq(@, LAMBDA s : ~(s.t = "fk" /\ s.a = e.kc))],
                        sq |-> sq1]
                  [] e.e = "delay" ->
-                      [L |-> L, sq |-> IF e.d > 0 THEN [sq1 EXCEPT !.delay = e.d - 1] ELSE sq1]
+                      [L |-> L, sq |-> IF Bug = "seq_delay_short" /\ e.d > 0 THEN [sq1 EXCEPT !.delay = SatSub(e.d, 3)]
+                                       ELSE IF Bug = "seq_delay_is_step" /\ sq1.pos < Len(evs) /\ evs[sq1.pos + 1].e = "press"
+                                       THEN [sq1 EXCEPT !.pos = @ + 1]     \* C08 model mutants (DESIGN 3.4)
+                                       ELSE IF e.d > 0 THEN [sq1 EXCEPT !.delay = e.d - 1] ELSE sq1]
                  [] e.e = "custom" -> [L |-> PushState(L, St("scp", sq.a, 0, 0, sq1.pos)), sq |-> sq1]
                  [] OTHER -> [L |-> L, sq |-> sq1]
 
